@@ -58,17 +58,38 @@ func selectByFile(pkgs []*packages.Package, file string) *packages.Package {
 func commonPrefix(paths []string) string {
 	index := 0
 	first := paths[0]
+scan:
 	for ; index < len(first); index++ {
 		c := first[index]
 		for _, other := range paths {
 			if index >= len(other) || other[index] != c {
 				// no more prefix
-				return first[:index]
+				break scan
 			}
 		}
 	}
 
-	return first
+	// first[:index] is the longest common prefix, character wise :
+	// it is a directory only if it ends at a path component boundary
+	atBoundary := true
+	for _, other := range paths {
+		if index < len(other) && other[index] != filepath.Separator {
+			atBoundary = false
+		}
+	}
+	if atBoundary {
+		return first[:index]
+	}
+
+	// otherwise, walk back to the previous separator ...
+	for index > 0 && first[index-1] != filepath.Separator {
+		index--
+	}
+	// ... and drop it, unless it is the root
+	if index > 1 {
+		index--
+	}
+	return first[:index]
 }
 
 // LoadSources returns for each source file, the `*packages.Package` containing it.
